@@ -137,14 +137,45 @@ Section Struct.
 Variable c : cfg.
 Variable s0 : st.
 
-Definition R (s : st) : Prop := WF s /\ prims c s0 s.
+(* orders that were closed in [s0] are still there, unchanged *)
+Definition Fin (s : st) : Prop :=
+  forall i o, nth_error (s_orders s0) i = Some o -> is_open o = false -> nth_error (s_orders s) i = Some o.
+Definition was_open (id : nat) : Prop :=
+  forall o, nth_error (s_orders s0) id = Some o -> is_open o = true.
+
+Definition R (s : st) : Prop := WF s /\ prims c s0 s /\ Fin s.
 Definition rp {A} (r : outcome A) : Prop := R (sof r).
 
-Lemma R_prim s s' : R s -> prim c s s' -> R s'.
-Proof. intros [Hw Hp] H. split; [eapply WF_prim; eauto | eapply prims_snoc; eauto]. Qed.
+Lemma R_prim_same s s' : R s -> prim c s s' -> s_orders s' = s_orders s -> R s'.
+Proof.
+  intros (Hw & Hp & Hf) H E. split; [eapply WF_prim; eauto | split; [eapply prims_snoc; eauto|]].
+  unfold Fin. rewrite E. exact Hf.
+Qed.
+
+Lemma R_prim_app s s' l : R s -> prim c s s' -> s_orders s' = s_orders s ++ l -> R s'.
+Proof.
+  intros (Hw & Hp & Hf) H E. split; [eapply WF_prim; eauto | split; [eapply prims_snoc; eauto|]].
+  intros i o Hi Ho. rewrite E. specialize (Hf i o Hi Ho). rewrite nth_error_app1; [exact Hf|].
+  apply nth_error_Some. rewrite Hf. discriminate.
+Qed.
+
+Lemma R_prim_put s s1 o' :
+  R s -> prim c s (put_order s1 o') -> s_orders s1 = s_orders s -> was_open (o_id o') -> R (put_order s1 o').
+Proof.
+  intros (Hw & Hp & Hf) H E Hwo. split; [eapply WF_prim; eauto | split; [eapply prims_snoc; eauto|]].
+  intros i o Hi Ho. unfold put_order. cbn [set_orders s_orders]. rewrite nth_error_replace_nth, E.
+  destruct (Nat.eqb i (o_id o')) eqn:Ei; [|exact (Hf i o Hi Ho)].
+  apply Nat.eqb_eq in Ei. subst i. specialize (Hwo o Hi). congruence.
+Qed.
 
 Lemma R_neutral s s' : R s -> neutral s s' -> R s'.
-Proof. intros H Hn. eapply R_prim; [exact H | apply PNeutral; exact Hn]. Qed.
+Proof. intros H Hn. eapply R_prim_same; [exact H | apply PNeutral; exact Hn | apply Hn]. Qed.
+
+Lemma R_was_open s id o : R s -> get_order s id = Some o -> is_open o = true -> was_open id.
+Proof.
+  intros (_ & _ & Hf) Hg Ho o' Hi. destruct (is_open o') eqn:E; [reflexivity|].
+  specialize (Hf id o' Hi E). unfold get_order in Hg. congruence.
+Qed.
 
 Lemma rp_obind A B (r : outcome A) (f : st -> A -> outcome B) :
   rp r -> (forall s a, R s -> rp (f s a)) -> rp (obind r f).
@@ -164,24 +195,27 @@ Proof. intros [A B] [C D]. split; congruence. Qed.
 Lemma rpf_create_loan s x a : R s -> rpf s (create_loan c s x a).
 Proof.
   intros H. destruct (create_loan c s x a) as [s' id|s' e] eqn:E; unfold rpf; cbn [sof].
-  - split; [eapply R_prim; [exact H | eapply PCreate; exact E]|].
-    apply create_loan_shape in E. destruct E as (a' & t & k & _ & _ & ->). split; reflexivity.
+  - pose proof E as E'. apply create_loan_shape in E'. destruct E' as (a' & t & k & _ & _ & E').
+    assert (F : fr s s') by (subst s'; split; reflexivity).
+    split; [eapply R_prim_same; [exact H | eapply PCreate; exact E | apply F] | exact F].
   - apply create_loan_fail_unchanged in E. subst. split; [exact H | apply fr_refl].
 Qed.
 
 Lemma rpf_repay_loan s id : R s -> rpf s (repay_loan c s id).
 Proof.
   intros H. destruct (repay_loan c s id) as [s' u|s' e] eqn:E; unfold rpf; cbn [sof].
-  - split; [eapply R_prim; [exact H | eapply PRepay; exact E]|].
-    apply repay_loan_shape in E. destruct E as (l & i & a' & _ & _ & _ & ->). split; reflexivity.
+  - pose proof E as E'. apply repay_loan_shape in E'. destruct E' as (l & i & a' & _ & _ & _ & E').
+    assert (F : fr s s') by (subst s'; split; reflexivity).
+    split; [eapply R_prim_same; [exact H | eapply PRepay; exact E | apply F] | exact F].
   - apply repay_loan_fail_unchanged in E. subst. split; [exact H | apply fr_refl].
 Qed.
 
 Lemma rpf_cancel_loan s id : R s -> rpf s (cancel_loan c s id).
 Proof.
   intros H. destruct (cancel_loan c s id) as [s' u|s' e] eqn:E; unfold rpf; cbn [sof].
-  - split; [eapply R_prim; [exact H | eapply PCancel; exact E]|].
-    apply cancel_loan_shape in E. destruct E as (l & a' & _ & _ & ->). split; reflexivity.
+  - pose proof E as E'. apply cancel_loan_shape in E'. destruct E' as (l & a' & _ & _ & E').
+    assert (F : fr s s') by (subst s'; split; reflexivity).
+    split; [eapply R_prim_same; [exact H | eapply PCancel; exact E | apply F] | exact F].
   - apply cancel_loan_fail_unchanged in E. subst. split; [exact H | apply fr_refl].
 Qed.
 
@@ -244,8 +278,8 @@ Proof.
                                         (s_orders s1 ++ [o']))).
       { eapply (PAccept c s1 req s2 o' tt); [rewrite Ev; exact E | | | | |]; cbn [o' o_id o_fb o_fq o_fee o_amount]; try assumption.
         rewrite Fo. exact Hid. }
-      rewrite Ev in P. pose proof (R_prim _ _ H1 P) as H3.
-      apply upd_acct_done in E. destruct E as (a' & _ & ->).
+      rewrite Ev in P. apply upd_acct_done in E. destruct E as (a' & _ & ->).
+      pose proof (R_prim_app _ _ [o'] H1 P eq_refl) as H3.
       eapply R_neutral; [exact H3|].
       unfold push_update; cbn; destruct (s_now s1); unfold neutral; cbn; repeat split; reflexivity.
     + apply upd_acct_fail in E. subst. exact H1.
@@ -255,7 +289,7 @@ Proof.
     assert (P : prim c s (set_orders (if vnonempty req then set_holds s (holds_set (s_holds s) (o_id o') req) else s)
                                      (s_orders s ++ [o']))).
     { eapply (PAccept c s req s o' tt); [rewrite Ev; reflexivity | | | | |]; cbn [o' o_id o_fb o_fq o_fee o_amount]; assumption. }
-    rewrite Ev in P. pose proof (R_prim _ _ H P) as H3.
+    rewrite Ev in P. pose proof (R_prim_app _ _ [o'] H P eq_refl) as H3.
     eapply R_neutral; [exact H3|].
     unfold push_update; cbn; destruct (s_now s); unfold neutral; cbn; repeat split; reflexivity.
 Qed.
@@ -293,26 +327,26 @@ Proof.
   rewrite Nat.eqb_refl, H. reflexivity.
 Qed.
 
-Lemma rp_repay_loans s o : R s -> stored s o -> rp (repay_loans c s o).
+Lemma rp_repay_loans s o : R s -> stored s o -> was_open (o_id o) -> rp (repay_loans c s o).
 Proof.
-  intros H Hst. unfold repay_loans.
+  intros H Hst Hwo. unfold repay_loans.
   destruct (check_infos c s (s_loans s)) as [u|e]; cbn [lift obind]; [|exact H].
   match goal with |- rp (obind (repay_each c s ?ids []) _) =>
     destruct (rpf_repay_each ids s [] H) as [H1 [Fo _]]; destruct (repay_each c s ids []) as [s1 done|s1 e] end;
     cbn [obind sof] in *; [|exact H1].
   unfold rp. cbn [sof]. destruct (stored_orders _ _ _ Fo Hst) as (o0 & Hg & Hm).
-  eapply R_prim; [exact H1|]. eapply PMeta; [cbn [add_loans o_id]; exact Hg|].
+  eapply R_prim_put; [exact H1 | | reflexivity | exact Hwo]. eapply PMeta; [cbn [add_loans o_id]; exact Hg|].
   unfold same_money in *. cbn [add_loans o_id o_pair o_op o_amount o_fb o_fq o_fee]. exact Hm.
 Qed.
 
-Lemma rp_order_closed s o : R s -> stored s o -> rp (order_closed c s o).
+Lemma rp_order_closed s o : R s -> stored s o -> was_open (o_id o) -> rp (order_closed c s o).
 Proof.
-  intros H Hst. unfold order_closed.
+  intros H Hst Hwo. unfold order_closed.
   destruct (update_balances c s o []) as [s1 u|s1 e] eqn:E; cbn [obind].
-  - assert (H1 : R s1) by (eapply R_prim; [exact H | eapply PRelease; exact E]).
-    destruct (update_balances_orders _ _ _ _ _ _ E) as [Eo _].
+  - destruct (update_balances_orders _ _ _ _ _ _ E) as [Eo _].
+    assert (H1 : R s1) by (eapply R_prim_same; [exact H | eapply PRelease; exact E | exact Eo]).
     destruct (o_ar o && negb (Qzero (filled o))); [|exact H1].
-    apply rp_repay_loans; [exact H1 | eapply stored_orders; eauto].
+    apply rp_repay_loans; [exact H1 | eapply stored_orders; eauto | exact Hwo].
   - apply update_balances_fail in E. subst. exact H.
 Qed.
 
@@ -323,30 +357,31 @@ Lemma same_money_hit o0 o h : same_money o0 o -> same_money o0 (with_hit o h).
 Proof. unfold same_money. cbn [with_hit o_id o_pair o_op o_amount o_fb o_fq o_fee]. auto. Qed.
 
 Lemma rp_close_as s o stt w :
-  R s -> stored s o ->
+  R s -> stored s o -> was_open (o_id o) ->
   rp (obind (order_closed c (put_order s (with_state o stt)) (with_state o stt))
             (fun s o2 => Done (push_update s o2 w) tt)).
 Proof.
-  intros H (o0 & Hg & Hm).
+  intros H (o0 & Hg & Hm) Hwo.
   assert (H1 : R (put_order s (with_state o stt))).
-  { eapply R_prim; [exact H|]. eapply PMeta; [cbn [with_state o_id]; exact Hg | apply same_money_state; exact Hm]. }
+  { eapply R_prim_put; [exact H | | reflexivity | exact Hwo].
+    eapply PMeta; [cbn [with_state o_id]; exact Hg | apply same_money_state; exact Hm]. }
   apply rp_obind.
-  - apply rp_order_closed; [exact H1|]. eapply stored_put. cbn [with_state o_id]. exact Hg.
+  - apply rp_order_closed; [exact H1 | | exact Hwo]. eapply stored_put. cbn [with_state o_id]. exact Hg.
   - intros s2 o2 H2. unfold rp. cbn [sof]. eapply R_neutral; [exact H2 | apply neutral_push_update].
 Qed.
 
 Lemma rp_cancel_order s id : R s -> rp (cancel_order c s id).
 Proof.
   intros H. unfold cancel_order. destruct (get_order s id) as [o|] eqn:Eg; [|exact H].
-  destruct (negb (is_open o)); [exact H|].
-  apply rp_close_as; [exact H|].
-  destruct H as [(Ho & _) _]. destruct (Ho _ _ Eg) as [Eid _].
+  destruct (negb (is_open o)) eqn:Eop; [exact H|]. apply negb_false_iff in Eop.
+  assert (Eid : o_id o = id) by (destruct H as [(Ho & _) _]; destruct (Ho _ _ Eg); assumption).
+  apply rp_close_as; [exact H | | rewrite Eid; eapply R_was_open; eauto].
   exists o. rewrite Eid. split; [exact Eg | apply same_money_refl].
 Qed.
 
-Lemma rp_order_not_filled s o when : R s -> stored s o -> rp (order_not_filled c s o when).
+Lemma rp_order_not_filled s o when : R s -> stored s o -> was_open (o_id o) -> rp (order_not_filled c s o when).
 Proof.
-  intros H Hst. unfold order_not_filled.
+  intros H Hst Hwo. unfold order_not_filled.
   destruct (o_kind o); try exact H;
     (destruct (negb (is_open o)); [exact H | apply rp_close_as; assumption]).
 Qed.
@@ -360,13 +395,14 @@ Lemma rpl_of_rp (r : outcome unit) l : rp r -> liq_ok l -> rpl (obind r (fun s _
 Proof. destruct r; unfold rp, rpl; cbn [obind sof]; auto. Qed.
 
 Lemma rp_process_order s l o p when b :
-  R s -> get_order s (o_id o) = Some o -> liq_ok l -> rpl (process_order c s l o p when b).
+  R s -> get_order s (o_id o) = Some o -> was_open (o_id o) -> liq_ok l -> rpl (process_order c s l o p when b).
 Proof.
-  intros H Hg Hl. unfold process_order.
+  intros H Hg Hwo Hl. unfold process_order.
   destruct (balance_updates c l o b) as [[u hit]|e] eqn:Ebu; cbn [lift obind]; [|split; [exact H | exact I]].
   set (o1 := with_hit o hit).
   assert (H1 : R (put_order s o1)).
-  { eapply R_prim; [exact H|]. eapply PMeta; [cbn [o1 with_hit o_id]; exact Hg | apply same_money_hit, same_money_refl]. }
+  { eapply R_prim_put; [exact H | | reflexivity | exact Hwo].
+    eapply PMeta; [cbn [o1 with_hit o_id]; exact Hg | apply same_money_hit, same_money_refl]. }
   assert (Hg1 : get_order (put_order s o1) (o_id o1) = Some o1).
   { unfold get_order, put_order in *. cbn [set_orders s_orders]. rewrite nth_error_replace_nth.
     rewrite Nat.eqb_refl. cbn [o1 with_hit o_id]. rewrite Hg. reflexivity. }
@@ -399,13 +435,14 @@ Proof.
     assert (Pf : prim c (put_order s o1) (put_order s4 (add_fill o1 when bv qv feev))).
     { eapply PFill; [exact Hg1 | exact Eu |]. apply OW_add_fill; [exact How1 | exact T0 |].
       change (bv * sign_of (o_op o) <= pending o). lra. }
-    pose proof (R_prim _ _ H1 Pf) as H5.
+    destruct (update_balances_orders _ _ _ _ _ _ Eu) as [Eo4 _].
+    pose proof (R_prim_put _ _ _ H1 Pf Eo4 Hwo) as H5.
     split.
     + apply rp_obind.
       * destruct (is_open (add_fill o1 when bv qv feev)); [exact H5|].
-        apply rp_order_closed; [exact H5|].
-        eapply stored_put. destruct (update_balances_orders _ _ _ _ _ _ Eu) as [Eo _].
-        unfold get_order. rewrite Eo. cbn [add_fill o_id]. exact Hg1.
+        apply rp_order_closed; [exact H5 | | exact Hwo].
+        eapply stored_put.
+        unfold get_order. rewrite Eo4. cbn [add_fill o_id]. exact Hg1.
       * intros s6 o2 H6. unfold rp. cbn [sof]. eapply R_neutral; [exact H6 | apply neutral_push_update].
     + destruct (if is_open (add_fill o1 when bv qv feev) then _ else _); cbn [obind]; [exact Hl' | exact I].
   - apply update_balances_fail in Eu. subst s4.
@@ -418,10 +455,12 @@ Proof.
   induction ids as [|id r IH]; intros s l H Hl; cbn [process_all].
   - split; [exact H | exact Hl].
   - destruct (get_order s id) as [o|] eqn:Eg; [|apply IH; assumption].
-    destruct (is_open o && pair_eqb (o_pair o) p); [|apply IH; assumption].
+    destruct (is_open o && pair_eqb (o_pair o) p) eqn:Eop; [|apply IH; assumption].
     assert (Eid : o_id o = id) by (destruct H as [(Ho & _) _]; destruct (Ho _ _ Eg); assumption).
     assert (Hg : get_order s (o_id o) = Some o) by (rewrite Eid; exact Eg).
-    destruct (rp_process_order s l o p when b H Hg Hl) as [H1 L1].
+    assert (Hwo : was_open (o_id o)).
+    { rewrite Eid. eapply R_was_open; [exact H | exact Eg |]. apply andb_true_iff in Eop. apply Eop. }
+    destruct (rp_process_order s l o p when b H Hg Hwo Hl) as [H1 L1].
     destruct (process_order c s l o p when b) as [s1 l1|s1 e]; cbn [obind sof] in *.
     + apply IH; assumption.
     + split; [exact H1 | exact I].
@@ -467,19 +506,37 @@ End Struct.
 
 Definition ops_ok (ops : list op) : Prop := Forall op_ok ops.
 
+(* orders closed in [s] are still there, unchanged, in [s'] *)
+Definition frozen (s s' : st) : Prop :=
+  forall i o, nth_error (s_orders s) i = Some o -> is_open o = false -> nth_error (s_orders s') i = Some o.
+
+Lemma step_struct c s o :
+  cfg_ok c -> op_ok o -> WF s ->
+  WF (fst (step c s o)) /\ prims c s (fst (step c s o)) /\ frozen s (fst (step c s o)).
+Proof.
+  intros Hc Ho Hw. apply (R_step c s s o Hc Ho). split; [exact Hw | split; [apply prims_refl|]].
+  intros i x Hi _. exact Hi.
+Qed.
+
 (* every operation, successful or not, is a sequence of primitive transactions between well-formed states *)
 Theorem step_prims c s o :
   cfg_ok c -> op_ok o -> WF s -> WF (fst (step c s o)) /\ prims c s (fst (step c s o)).
-Proof. intros Hc Ho Hw. apply (R_step c s s o Hc Ho). split; [exact Hw | apply prims_refl]. Qed.
+Proof. intros Hc Ho Hw. destruct (step_struct c s o Hc Ho Hw) as (A & B & _). split; assumption. Qed.
+
+(* C05: a closed order never changes again, whatever operation follows *)
+Theorem step_closed_final c s o :
+  cfg_ok c -> op_ok o -> WF s -> frozen s (fst (step c s o)).
+Proof. intros Hc Ho Hw. apply (step_struct c s o Hc Ho Hw). Qed.
 
 Theorem run_prims c ops : forall s,
-  cfg_ok c -> ops_ok ops -> WF s -> WF (run c s ops) /\ prims c s (run c s ops).
+  cfg_ok c -> ops_ok ops -> WF s -> WF (run c s ops) /\ prims c s (run c s ops) /\ frozen s (run c s ops).
 Proof.
   unfold run. induction ops as [|o r IH]; intros s Hc Ho Hw; cbn [fold_left].
-  - split; [exact Hw | apply prims_refl].
+  - split; [exact Hw | split; [apply prims_refl | intros i x Hi _; exact Hi]].
   - inversion Ho as [|? ? Ho1 Hor]; subst.
-    destruct (step_prims c s o Hc Ho1 Hw) as [W1 P1].
-    destruct (IH _ Hc Hor W1) as [W2 P2]. split; [exact W2 | eapply prims_trans; eauto].
+    destruct (step_struct c s o Hc Ho1 Hw) as (W1 & P1 & F1).
+    destruct (IH _ Hc Hor W1) as (W2 & P2 & F2). split; [exact W2 | split; [eapply prims_trans; eauto|]].
+    intros i x Hi Hx. apply F2; [apply F1; assumption | exact Hx].
 Qed.
 
 Lemma WF_init initial : WF (init_st initial).
